@@ -616,7 +616,7 @@ SUBS = [
         rule='RuleBasedStateMachine on a synthetic class with three weak_lru_cache methods (default size, maxsize=4, mutable result): create / call(args, kwargs) / drop / gc / drop-then-create (address reuse measured via id) / bursts of 130-200 objects; every value must carry this object\'s payload and equal __wrapped__; dropped objects must die',
         n={'quick': 25, 'thorough': 400}, shards={'quick': 8, 'thorough': 16}, steps={'quick': 40, 'thorough': 60}),
     Sub(name='analysis-objects', kind='machine', run=run_real, machine=lambda tier: RealMachine,
-        rule='RuleBasedStateMachine on real Trajectory / Transitions / Jumps / TrajectoryMetrics / Collective objects built from 2-3 generated systems: every cached method with varying arguments vs method.__wrapped__ and (every second call) vs a pristine twin derived again from the raw arrays; non-memoised analysis entry points (occupancy, atom_locations, activation_energy_between_sites) as well; sibling objects derived from one shared parent trajectory (whole run / slices); drop + gc (weakref must be dead), drop-then-create, bursts of 135 metrics objects; census of live gemdat analysis objects before / after each history (temporaries made inside the library must die too)',
+        rule='RuleBasedStateMachine on real Trajectory / Transitions / Jumps / TrajectoryMetrics / Collective objects built from 2-3 generated systems: every cached method with varying arguments vs method.__wrapped__ and (every second call) vs a pristine twin derived again from the raw arrays; non-memoised analysis entry points (occupancy, atom_locations, activation_energy_between_sites) as well; sibling objects derived from one shared parent trajectory (whole run / slices); Jumps objects over one shared Transitions that differ in minimal residence or in a user-supplied conversion_method (closures of one factory, functools.partial); before every third compared call all sibling argument sets of the method (negative integers included) are called first; drop + gc (weakref must be dead), drop-then-create, bursts of 135 metrics objects; census of live gemdat analysis objects before / after each history (temporaries made inside the library must die too)',
         n={'quick': 10, 'thorough': 120}, shards={'quick': 12, 'thorough': 16}, steps={'quick': 25, 'thorough': 40}),
     Sub(name='threads-stress', kind='hyp', run=run_threads, strategy=thread_cases,
         rule='best effort, not schedule-controlled: 2-8 threads at a 1 microsecond switch interval create / query (shared and private objects) / drop objects of the synthetic cached class; every value must carry its own object payload',
